@@ -198,6 +198,8 @@ func (c *Ctx) reachableFromPeerInput() map[string]bool {
 		{wsutil, "UTF8Reader", "Read"}, {wsutil, "CipherReader", "Read"}, {wsutil, "", "NextReader"}, {wsutil, "", "HandleControlMessage"},
 		{wsflate, "Reader", "Read"}, {wsflate, "suffixedReader", "Read"}, {wsflate, "suffixedReader", "ReadByte"}, {wsflate, "Parameters", "Parse"}, {wsflate, "Extension", "Negotiate"},
 		{wsflate, "Helper", "DecompressFrameBuffer"}, {wsflate, "Helper", "DecompressTo"}, {wsflate, "MessageState", "UnsetBits"},
+		// the debugging wrappers see the handshake bytes of the peer as well
+		{wsutil, "DebugDialer", "Dial"}, {wsutil, "DebugUpgrader", "Upgrade"}, {wsutil, "prefetchResponseReader", "Read"},
 	}
 	cg := c.P.CHA()
 	seen := map[*ssa.Function]bool{}
